@@ -229,6 +229,82 @@ fn call_grid_idx(log: &mut Log, shape: u64, grid: &[i64]) {
     });
 }
 
+/// log of a two-dimensional density on the unit-ish square
+fn lnf2(f: u64, x: f64, y: f64) -> f64 {
+    match f {
+        0 => (x + y + 0.25).ln(),            // linear in each argument: exact for every rule
+        1 => -0.8 * x - 0.3 * y * y,         // a product density
+        _ => (1.0 + x * y).ln(),
+    }
+}
+
+/// nested one-dimensional integrals = a two-dimensional one: the density of the outer helper
+/// itself calls an integration helper (re-entrance)
+fn call_nested(log: &mut Log, outer: &str, inner: &str, f: u64, n1: usize, n2: usize) {
+    let (a1, b1, a2, b2) = (0.0f64, 2.0f64, 0.0f64, 1.0f64);
+    let h1 = (b1 - a1) / (n1 as f64 - 1.0);
+    let h2 = (b2 - a2) / (n2 as f64 - 1.0);
+    let tab: Vec<Vec<f64>> = (0..n1).map(|i| (0..n2).map(|j| lnf2(f, a1 + i as f64 * h1, a2 + j as f64 * h2)).collect()).collect();
+    let m = lpmax_of(&tab.iter().flatten().cloned().collect::<Vec<f64>>());
+    let tj: Vec<Value> = tab.iter().map(|r| i64s(&r.iter().map(|&lp| fixop(lp, m)).collect::<Vec<i64>>())).collect();
+    log.call("nested", json!({"outer": outer, "inner": inner, "f": f, "n1": n1, "n2": n2, "table": tj}), || {
+        let inner_int = |x: f64| -> LogProb {
+            let d = |_: usize, y: f64| LogProb(lnf2(f, x, y));
+            match inner {
+                "trapz" => LogProb::ln_trapezoidal_integrate_exp(d, a2, b2, n2),
+                "simpson" => LogProb::ln_simpsons_integrate_exp(d, a2, b2, n2),
+                _ => {
+                    let g: Vec<f64> = (0..n2).map(|j| a2 + j as f64 * h2).collect();
+                    LogProb::ln_trapezoidal_integrate_grid_exp(d, &g)
+                }
+            }
+        };
+        let od = |_: usize, x: f64| inner_int(x);
+        let res = match outer {
+            "trapz" => LogProb::ln_trapezoidal_integrate_exp(od, a1, b1, n1),
+            "simpson" => LogProb::ln_simpsons_integrate_exp(od, a1, b1, n1),
+            _ => {
+                let g: Vec<f64> = (0..n1).map(|i| a1 + i as f64 * h1).collect();
+                LogProb::ln_trapezoidal_integrate_grid_exp(od, &g)
+            }
+        };
+        fix(*res - ((b1 - a1) * (b2 - a2)).ln(), m, UNIT)
+    });
+}
+
+/// fine grid far from the origin: density c0 + c1 * (x - a) (both rules are exact for it); the
+/// abscissae of a sample of calls are reported as their distance from a + i*h in ulps of the
+/// largest end point (projection of the abscissa, like the grid index elsewhere)
+fn call_fargrid(log: &mut Log, rule: &str, aname: &str, a: f64, w: i64, n: usize, c0: i64, c1: i64) {
+    let b = a + w as f64;
+    let h = (b - a) / (n as f64 - 1.0);
+    let big = a.abs().max(b.abs());
+    let ulp = f64::from_bits(big.to_bits() + 1) - big;
+    let lmax = ((c0 + c1 * w) as f64).ln();
+    log.call("fargrid", json!({"rule": rule, "a": aname, "w": w, "n": n, "c0": c0, "c1": c1}), || {
+        let mut ncalls: i64 = 0;
+        let mut samples: Vec<Value> = vec![];
+        let dens = |i: usize, x: f64| {
+            ncalls += 1;
+            if i <= 2 || i + 3 >= n || i % 50_000 == 0 {
+                let ii = std::cmp::min(i, n - 1); // the right boundary is announced as n
+                let ideal = a + ii as f64 * h;
+                samples.push(json!([i, ((x - ideal) / ulp).round().max(-1.0e9).min(1.0e9) as i64]));
+            }
+            LogProb((c0 as f64 + c1 as f64 * (x - a)).ln())
+        };
+        let res = if rule == "trapz" {
+            LogProb::ln_trapezoidal_integrate_exp(dens, a, b, n)
+        } else {
+            LogProb::ln_simpsons_integrate_exp(dens, a, b, n)
+        };
+        let mut v = fix(*res - (w as f64).ln(), lmax, UNIT);
+        v["ncalls"] = json!(ncalls);
+        v["samples"] = Value::Array(samples);
+        v
+    });
+}
+
 fn conv_chain(start: f64, chain: &[&str]) -> f64 {
     // start is a probability; returns the probability represented at the end (std functions
     // for entering / leaving the chain = projection)
@@ -563,6 +639,13 @@ pub fn drive(log: &mut Log) {
             call_grid_idx(log, 1 + rng.below(5), &g);
         }
         call_trapz_simpson(log, "trapz", rng.below(6), 0.0, 7.0, 4); // even n is fine for the trapezoid
+        // nested helpers (2-D integrals): every outer / inner combination over the run's lifetime
+        let rules = ["trapz", "simpson", "grid"];
+        for _ in 0..2 {
+            let (o, i) = (*rng.pick(&rules), *rng.pick(&rules));
+            call_nested(log, o, i, rng.below(3), *rng.pick(&[3usize, 5, 9]), *rng.pick(&[3usize, 5, 11]));
+            log.oblige("integration_helper_reentered_from_density");
+        }
         log.oblige("grid_nonuniform");
     }
 
@@ -871,6 +954,29 @@ pub fn drive(log: &mut Log) {
                 if n > 2_400_000 {
                     log.oblige("grid_more_than_2400000_points");
                 }
+            }
+        }
+    }
+
+    // (i) fine grids far from the origin: the step is close to (or below) the spacing of f64 there
+    {
+        let places: [(&str, f64, i64); 3] = [("2^30", 1073741824.0, 1), ("-2^40", -1099511627776.0, 4), ("10^9", 1.0e9, 10)];
+        for (pi, &(aname, a, w)) in places.iter().enumerate() {
+            for (ri, rule) in ["trapz", "simpson"].iter().enumerate() {
+                case += 1;
+                if !log.mine(case) {
+                    continue;
+                }
+                if !log.opts.thorough() && (pi as u64 + ri as u64 + seed) % 2 == 1 {
+                    continue;
+                }
+                let mut rng = Rng::new(seed, 26, case);
+                if !log.begin("far", json!({"kind": "ops"})) {
+                    continue;
+                }
+                let n = *rng.pick(&[100_001usize, 500_001, 1_000_001]);
+                call_fargrid(log, rule, aname, a, w, n, rng.range(1, 5), rng.range(1, 9));
+                log.oblige("fine_grid_far_from_origin");
             }
         }
     }
